@@ -7,6 +7,16 @@ SIM_ASSUME = [
 ]
 
 
+PURE_ASSUME = [
+    "E3: n2's real functions are called in-process through cfg-gated facades (cargo feature `verif`), built optimised with debug assertions, overflow checks and ub_checks on",
+    "reference implementations / generator ground truth in /verif/n2v/src/pure and ap.rs are correct",
+]
+
+
+def pure(quick_s, thorough_s, variant="verif", tiers=("quick", "thorough")):
+    return {"engine": "pure", "variant": variant, "budget_ms": {"quick": quick_s * 1000, "thorough": thorough_s * 1000}, "tiers": tiers}
+
+
 def sim(quick_s, thorough_s):
     return {"engine": "sim", "variant": "verif", "budget_ms": {"quick": quick_s * 1000, "thorough": thorough_s * 1000}}
 
@@ -74,7 +84,7 @@ PROPS = {
         "assumptions": SIM_ASSUME,
     },
     "C09": {
-        "stages": [sim(25, 420)],
+        "stages": [sim(20, 420), pure(5, 60)],
         "rule": "histories in which a command's reported dependency set grows, shrinks, overlaps declared and order-only inputs, repeats under several spellings (./x, a/../x, x), names missing files, with header edits/deletions in between; exact run-set comparison with the reference model (dep set = canonicalised, de-duplicated, minus declared dirtying inputs; replaced wholesale on success), recorded dep lists decoded from the log writes and compared, clean-build content comparison; non-trivial as C02",
         "must_observe": ["events", "noop_rebuilds_checked"],
         "assumptions": SIM_ASSUME + ["E1 hands the reported list to n2 directly; depfile/showIncludes parsing is covered by C15 and the pure stage"],
@@ -84,5 +94,47 @@ PROPS = {
         "rule": "projects whose manifest is the output of a generator step with 1-3 future generations (changed commands, added/removed steps, rewired inputs); histories of generator-input edits, source/output edits, builds of random targets, failing generator; per phase the started set must equal the model's prediction for the old (phase 1) and new (phase 2) generation, a reload must happen iff a command ran in phase 1, the graph loaded after the reload must be the new text, and nothing may run after a failed regeneration; non-trivial = invocation with a reload",
         "must_observe": ["events", "invocations_with_reload"],
         "assumptions": SIM_ASSUME + ["a manifest named as a target is treated as built in phase 1 (n2's documented design); its closure is not re-examined against the new text"],
+    },
+    "C10": {
+        "stages": [pure(15, 240)],
+        "rule": "abstract manifests (1-12 statements: rule/build with all four input sections and implicit outputs/default/pool/include/subninja/file-level bindings, names with spaces, colons, dollars, UTF-8, ./ ../ // components) rendered in 4 (quick) / 8 (thorough) concrete spellings each (spaces, indentation, $-newline continuations between tokens and inside values, $x vs ${x}, $-escapes, comments and blank lines, empty sections) and loaded through n2's loader; the loaded graph (steps in order, each path with role and position, command, description, depfile, deps, rspfile, pool, defaults, pools, builddir) must equal the reference evaluation of the abstract manifest and must not depend on the spelling; non-trivial = a build statement with >= 2 non-empty input sections or a path needing an escape; distinct by hash(abstract manifest) x hash(spelling)",
+        "must_observe": ["abstract_manifests", "manifests_with_includes"],
+        "assumptions": PURE_ASSUME,
+    },
+    "C11": {
+        "stages": [pure(15, 240)],
+        "rule": "abstract manifests biased to bindings: 6 variable names reused at file, rule and build level, self references (x = ${x}y), redefinitions after use, $in/$out/$in_newline/$out_newline, build-level overrides of rule attributes, include (shared scope) and subninja (copied scope) nesting up to depth 3; every evaluated command/description/depfile/rspfile/pool/path in the loaded graph must equal the reference evaluator written from the property statement (DESIGN.md A3); non-trivial = manifest with a build statement carrying block bindings; distinct by hash(abstract manifest) x hash(spelling)",
+        "must_observe": ["abstract_manifests", "manifests_with_includes"],
+        "assumptions": PURE_ASSUME,
+    },
+    "C12": {
+        "stages": [pure(30, 420)],
+        "rule": "(i) exhaustive: all sequences of <= 4 (quick) / 5 (thorough) tokens over 34 Ninja tokens (keywords, identifiers, spaces, newline, : | || |@ = $ '$ ' $-newline ${ } $x # tab NUL CR e-acute 0xff . .. / digit), each with and without a final newline, loaded from memory; (ii) mutations of valid generated manifests (truncate at a byte, delete/duplicate/swap ranges, raw bytes, dropped final newline, 10-800 character lines of multi-byte characters around an error, paths of 1-200 components, empty expansions); (iii) raw random bytes; (iv) depfile bytes; (v) deep/empty paths straight into the canonicaliser; (vi) include/subninja of itself, of a cycle, of a directory, of a missing file, of an empty expansion. Oracle: no panic, no abort (ub_checks/overflow/stack overflow kill the worker and are attributed by bisection), Ok or a non-empty diagnostic; parse errors must have the `parse error: ...`, `<file>:<line>: excerpt`, caret-line shape with the line in range; non-trivial = input that gets past the first statement keyword; evidence lists the distinct parser outcomes reached",
+        "must_observe": ["exhaustive_inputs", "mutated_inputs", "include_cycle_inputs", "path_inputs", "depfile_inputs"],
+        "assumptions": PURE_ASSUME + ["process-level clauses (exit status 1, `n2: error:` prefix) are checked by the black-box stage when present"],
+    },
+    "C13": {
+        "stages": [pure(12, 240)],
+        "rule": "exhaustive over {a . / \\}^n for n <= 9 (quick) / 11 (thorough) and {a b . /}^n for n <= 8 / 10, then random paths of 1-60 components (UTF-8 names, .., ., empty, mixed separators) and re-spellings (inserted ./, x/../, doubled separators before the last component) which must canonicalise identically; checks: equals the independent component-list canonicaliser, idempotent, never longer, no ., empty or name/.. component left, .. only leading, same location; assert_unchecked/set_len preconditions are checked by the build profile; non-trivial = canon(p) != p",
+        "must_observe": ["exhaustive_inputs", "random_inputs", "respell_pairs"],
+        "assumptions": PURE_ASSUME,
+    },
+    "C14": {
+        "stages": [pure(12, 180)],
+        "rule": "exhaustive: every (explicit, implicit) output list of one statement with 1-4 explicit and 0-3 implicit entries over 3 names containing a repeat (193 shapes), repeats spelled canon-equivalently: must load, print the `is repeated in output list` warning (stdout captured) and list each output once, explicit iff first seen in the explicit section; random: generated manifests with an output of one statement injected (any spelling, explicit or implicit, possibly across include/subninja) into a later statement: must be rejected with an error citing both statements' file:line; non-trivial = multiplicity >= 3, a repeat straddling the explicit/implicit boundary, a non-identical spelling or a second producer in another file",
+        "must_observe": ["exhaustive_inputs", "cross_statement_inputs"],
+        "assumptions": PURE_ASSUME,
+    },
+    "C15": {
+        "stages": [pure(15, 240)],
+        "rule": "exhaustive totality over all strings of length <= 9 (quick) / 10 (thorough) over {a, space, ':', backslash, newline}; structured depfiles of 1-6 `target: prerequisites` entries rendered with 0-3 spaces before the colon, spaces and/or backslash-newline continuations with indentation between prerequisites, blank lines, trailing spaces, optional final newline, Windows-style C:/x\\y names, entries without prerequisites, repeated targets; read through n2's real depfile reader from a file and compared with the listed prerequisites in order (repeated targets: grouped under the first occurrence); missing depfile = empty; malformed content must fail with a parse error naming the depfile; non-trivial = >= 2 entries or a continuation",
+        "must_observe": ["exhaustive_inputs", "structured_inputs", "missing_depfile_checks", "malformed_rejected"],
+        "assumptions": PURE_ASSUME,
+    },
+    "C20": {
+        "stages": [pure(15, 240)],
+        "rule": "exhaustive: strings of <= 6 (quick) / 7 (thorough) characters over {a, e-acute, katakana BI, emoji} with 0/3/9 bytes of ASCII padding x columns 10..len+15 x seconds {0,2,3,99,100,999,1000,99999,10^6} through task_message, every max through truncate, all state-count vectors with total <= 12 through progress_bar(40); random long strings (combining marks, raw non-UTF-8 bytes through from_utf8_lossy), widths 10-300, large counts; oracle: no panic, result = prefix at a character boundary + ... + time note, at most max(cols, note+3) bytes, unchanged iff it fits, bar exactly 40 bytes; non-trivial = the naive cut position falls inside a multi-byte character",
+        "must_observe": ["exhaustive_strings", "exhaustive_count_vectors", "random_inputs"],
+        "assumptions": PURE_ASSUME + ["end-to-end pty runs are a separate black-box stage when present"],
     },
 }
